@@ -42,6 +42,7 @@ StrictStep ==
        ELSE /\ e.thr \in Workers
             /\ CASE e.act = "begin" -> WStart(e.thr)
                  [] e.act = "put"   -> WPut(e.thr) /\ queue'[Len(queue')] = MsgOf(e.m)
+                 [] e.act = "exit" -> WExit(e.thr)
                  [] OTHER -> FALSE
     /\ Alive(wpc') = SetOf(e.alive)
     /\ told' = SetOf(e.told)
